@@ -204,4 +204,16 @@ def Cell.asDuration : Cell → Option Int
   | .dateTime _ msDur => durationOfMs msDur
   | _ => none
 
+/-- What the serde helpers `deserialize_as_{datetime,date,time,duration}_or_{none,string}`
+    (src/lib.rs) convert: they first rebuild a `Data` with `Data::deserialize`, and the cell
+    deserializer's `deserialize_any` hands a `DateTime(v)` cell over as the bare `f64`
+    (`visit_f64(v.as_f64())`), i.e. as a plain `Float` — the date-system flag and the fact that
+    it was a date-time are gone.  `ms1900` is the date float step of the same value in the 1900
+    system.  (ISO strings arrive as plain `String`s, i.e. `other`.) -/
+def Cell.viaSerde (c : Cell) (ms1900 : MsIn) : Cell :=
+  match c with
+  | .num m => .num m
+  | .dateTime _ _ => .num ms1900
+  | .other => .other
+
 end Dates
